@@ -415,6 +415,10 @@ Fixpoint engine_ok (q : Q) : Prop :=
       forall k, k < ndocs c ->
         (re_match rid (text_of c fn k) = true -> exists i j, rm tolower cs (text_of c fn k) r i j) /\
         (no_other r = true -> (exists i j, rm tolower cs (text_of c fn k) r i j) -> re_match rid (text_of c fn k) = true)
+  (* symbol atoms: the sections are well formed, and where the distillation of a symbol regexp is one exact literal the
+     engine agrees with literal containment on the text of every section (assumed per section, not derived from [rm]) *)
+  | QSymSubstr p cs => re_ok re_match tolower orbit c freq (QSymSubstr p cs)
+  | QSymRegexp rid r tf cs => re_ok re_match tolower orbit c freq (QSymRegexp rid r tf cs)
   | QAnd l => (fix all (l : list Q) : Prop := match l with [] => True | x :: r => engine_ok x /\ all r end) l
   | QOr l => (fix all (l : list Q) : Prop := match l with [] => True | x :: r => engine_ok x /\ all r end) l
   | QNot q' => engine_ok q'
@@ -436,7 +440,7 @@ Proof.
   - simpl in He. apply engine_ok_list in He. apply (proj2 (re_ok_list _ _ _ _ _ _)). rewrite Forall_forall in *. auto.
   - simpl in He. apply engine_ok_list in He. apply (proj2 (re_ok_list _ _ _ _ _ _)). rewrite Forall_forall in *. auto.
   - simpl in *. auto. - simpl in *. auto. - simpl in *. auto. - simpl in *. auto.
-  - destruct q; try contradiction; try exact I.
+  - destruct q; try contradiction; try exact I; try exact He.
     cbn [engine_ok] in He. destruct He as [Hne He]. cbn [re_ok]. intros k Hk. cbv zeta.
     destruct (He k Hk) as [Hsound Hcomplete].
     pose proof (distill_sound re_match tolower orbit c freq Hagree Hfreq Hnl cs fn k Hk r) as Hds.
